@@ -92,7 +92,16 @@ def kernel(x, p):
             if before_nl or after_nl:
                 continue
         stripped.append(t)
-    if len(stripped) != len(run):
+    glued = False
+    for i in range(len(stripped) - 1):
+        # removing the blanks between a bare CR and an LF leaves CR LF, which
+        # is ONE line end: a program with different line breaks - no claim
+        if (isinstance(stripped[i], lexer.TokNewline) and
+                stripped[i]._data == b'\r' and
+                isinstance(stripped[i + 1], lexer.TokNewline) and
+                stripped[i + 1]._data[:1] == b'\n'):
+            glued = True
+    if len(stripped) != len(run) and not glued:
         out2, _ = K.run_kernel(stripped, at_start, at_eof, indent, width)
         x.check('output does not depend on blanks next to line ends',
                 out2 == out, known=sig)
